@@ -407,3 +407,37 @@ Section RoundQuote.
     exists i1, i2, a1, b1, c1, a2, b2, c2. auto 10.
   Qed.
 End RoundQuote.
+
+(* ================= C02 end to end, timestamped medians ================= *)
+Section RoundTsv.
+  Context (h : Z -> chandef -> list Z) (check : list Z -> option (gmap Z Z)) (codec_ok : chandef -> bool).
+  Context (cf : cfg) (seq : Z) (prev_bytes : list Z).
+  Local Notation tagged := (tagged check codec_ok cf seq prev_bytes).
+  Local Notation lsenders_ok := (lsenders_ok codec_ok cf seq prev_bytes).
+
+  Theorem llo_tsv_median_between_data_sources ss prev next sid t d :
+    bok prev_bytes -> lsenders_ok ss -> 1 < seq ->
+    outcome_step h cf seq prev (map fst (tagged ss)) = Ok next ->
+    o_aggs next !! (sid, 1) = Some (STsv t (SDec d)) ->
+    honest_tsv (accepted_vals (tagged ss) sid) ->
+    (fpres (accepted_vals (tagged ss) sid) < hpres (accepted_vals (tagged ss) sid))%nat ->
+    o_aggs prev !! (sid, 1) = Some (STsv t (SDec d)) \/
+    exists i1 i2 i3 i4 tl th dl dh x1 x2 t1 t2,
+      (exists rms ups vals, In (LCorrect i1 rms ups vals) ss) /\ (exists rms ups vals, In (LCorrect i2 rms ups vals) ss) /\
+      (exists rms ups vals, In (LCorrect i3 rms ups vals) ss) /\ (exists rms ups vals, In (LCorrect i4 rms ups vals) ss) /\
+      oi_vals i1 !! sid = Some (STsv tl x1) /\ oi_vals i2 !! sid = Some (STsv th x2) /\ tl <= t <= th /\
+      oi_vals i3 !! sid = Some (STsv t1 (SDec dl)) /\ oi_vals i4 !! sid = Some (STsv t2 (SDec dh)) /\ dle dl d /\ dle d dh.
+  Proof.
+    intros Hb Hok Hseq Hstep Hl Hh Hmaj.
+    destruct (outcome_tsv_median_in_honest_range h cf seq prev (tagged ss) next sid t d Hseq Hstep Hl Hh Hmaj)
+      as [Hkept|(tl & th & dl & dh & t1 & d1 & t2 & d2 & H1 & H2 & H3 & H4 & H5 & H6 & H7)]; [left; exact Hkept|right].
+    assert (Hfind : forall x, In (Some x, true) (accepted_vals (tagged ss) sid) ->
+                    exists i, (exists rms ups vals, In (LCorrect i rms ups vals) ss) /\ oi_vals i !! sid = Some x).
+    { intros x Hx. destruct (accepted_vals_in _ _ _ _ Hx) as (ob & Hob & Hv).
+      destruct (tagged_correct check codec_ok cf seq prev_bytes ss ob Hb Hok Hob) as (i & rms & ups & vals & Hs & Hsub & _).
+      exists i. split; [eauto|]. eapply lookup_weaken; [exact Hv|exact Hsub]. }
+    destruct (Hfind _ H1) as (i1 & Hi1 & E1). destruct (Hfind _ H2) as (i2 & Hi2 & E2).
+    destruct (Hfind _ H4) as (i3 & Hi3 & E3). destruct (Hfind _ H5) as (i4 & Hi4 & E4).
+    exists i1, i2, i3, i4, tl, th, dl, dh, d1, d2, t1, t2. repeat split; try assumption; lia.
+  Qed.
+End RoundTsv.
